@@ -22,6 +22,7 @@ type FnIndex struct {
 	Fns       []*ssa.Function
 	closureOf map[*ssa.Function]*ssa.MakeClosure
 	stores    map[ssa.Value][]*ssa.Store
+	condCache map[*ssa.Function][]ssa.Value
 	loops     map[*ssa.Function][]*Loop
 	edgeDom   map[edgeKey]map[*ssa.BasicBlock]bool
 	built     bool
@@ -2130,6 +2131,10 @@ func (x *FnIndex) tokenReaches(fn *ssa.Function, from *ssa.Store, zeroOf *ssa.Al
 	for i, f := range flags {
 		fidx[f] = i
 	}
+	vidx := map[ssa.Value]int{}
+	for i, v := range x.condValues(fn, 8-len(flags)) {
+		vidx[v] = len(flags) + i
+	}
 	pow := func(i int) int {
 		p := 1
 		for ; i > 0; i-- {
@@ -2199,6 +2204,7 @@ func (x *FnIndex) tokenReaches(fn *ssa.Function, from *ssa.Store, zeroOf *ssa.Al
 		work = work[:len(work)-1]
 		st, t := n.st, clone(n.t)
 		loaded := map[ssa.Value]int{}
+		loadedOf := map[ssa.Value]int{}
 		for i := n.i; i < len(n.b.Instrs); i++ {
 			in := n.b.Instrs[i]
 			steps++
@@ -2214,6 +2220,11 @@ func (x *FnIndex) tokenReaches(fn *ssa.Function, from *ssa.Store, zeroOf *ssa.Al
 					if c := cellOf(u.X); c != nil && t.cells[c] {
 						return true
 					}
+				}
+			}
+			if vv, isV := in.(ssa.Value); isV {
+				if vi, tracked := vidx[vv]; tracked {
+					st = set(st, vi, 0) // computed anew
 				}
 			}
 			switch s := in.(type) {
@@ -2258,6 +2269,7 @@ func (x *FnIndex) tokenReaches(fn *ssa.Function, from *ssa.Store, zeroOf *ssa.Al
 					if al, ok := s.X.(*ssa.Alloc); ok {
 						if fi, isF := fidx[al]; isF {
 							loaded[s] = get(st, fi)
+							loadedOf[s] = fi
 						}
 					}
 				}
@@ -2297,6 +2309,7 @@ func (x *FnIndex) tokenReaches(fn *ssa.Function, from *ssa.Store, zeroOf *ssa.Al
 			continue
 		}
 		only := -1
+		learn, learnNeg := -1, false
 		if len(n.b.Instrs) > 0 {
 			if iff, ok := n.b.Instrs[len(n.b.Instrs)-1].(*ssa.If); ok && len(n.b.Succs) == 2 {
 				cond, neg := iff.Cond, false
@@ -2306,6 +2319,20 @@ func (x *FnIndex) tokenReaches(fn *ssa.Function, from *ssa.Store, zeroOf *ssa.Al
 						break
 					}
 					cond, neg = u.X, !neg
+				}
+				if v, ok := loaded[cond]; ok && v == 0 {
+					// the variable's value is not known here: each edge tells it (provided the
+					// variable was not assigned between this read and the branch)
+					fi := loadedOf[cond]
+					clean := true
+					for j := instrIdx(cond.(ssa.Instruction)) + 1; j < len(n.b.Instrs); j++ {
+						if stj, isSt := n.b.Instrs[j].(*ssa.Store); isSt && stj.Addr == ssa.Value(flags[fi]) {
+							clean = false
+						}
+					}
+					if clean && cond.(ssa.Instruction).Block() == n.b {
+						learn, learnNeg = fi, neg
+					}
 				}
 				if v, ok := loaded[cond]; ok && v != 0 {
 					tv := v == 1
@@ -2318,16 +2345,56 @@ func (x *FnIndex) tokenReaches(fn *ssa.Function, from *ssa.Store, zeroOf *ssa.Al
 						only = 1
 					}
 				}
+				if vi, tracked := vidx[cond]; tracked {
+					if v := get(st, vi); v != 0 {
+						tv := (v == 1) != neg
+						if tv {
+							only = 0
+						} else {
+							only = 1
+						}
+					} else {
+						learn, learnNeg = vi, neg
+					}
+				}
 			}
 		}
 		for k, sc := range n.b.Succs {
 			if only >= 0 && k != only {
 				continue
 			}
-			key := fmt.Sprintf("%d|%d|%s", sc.Index, st, sig(t))
+			stk := st
+			if learn >= 0 {
+				if (k == 0) != learnNeg {
+					stk = set(st, learn, 1)
+				} else {
+					stk = set(st, learn, 2)
+				}
+			}
+			// a flag variable assigned the tested value in this very block holds the outcome too
+			if iff, isIf := n.b.Instrs[len(n.b.Instrs)-1].(*ssa.If); isIf {
+				cond, neg := iff.Cond, false
+				for {
+					u, isU := cond.(*ssa.UnOp)
+					if !isU || u.Op != token.NOT {
+						break
+					}
+					cond, neg = u.X, !neg
+				}
+				for fi, fc := range flags {
+					if holdsAtEnd(n.b, fc, cond) {
+						if (k == 0) != neg {
+							stk = set(stk, fi, 1)
+						} else {
+							stk = set(stk, fi, 2)
+						}
+					}
+				}
+			}
+			key := fmt.Sprintf("%d|%d|%s", sc.Index, stk, sig(t))
 			if !seen[key] {
 				seen[key] = true
-				work = append(work, node{sc, 0, st, t})
+				work = append(work, node{sc, 0, stk, t})
 			}
 		}
 	}
@@ -2862,8 +2929,10 @@ func (x *FnIndex) lastLoad(v ssa.Value) ssa.Value {
 
 // ---- flag-sensitive reachability ---------------------------------------------------
 
-// flagCells lists the local bool variables of fn that are only ever assigned
-// the constants true and false (`found := false; ...; found = true`).
+// flagCells lists the local bool variables of fn that only fn itself assigns: constants
+// (`found := false; ...; found = true`), the value of another such variable, or a condition
+// (`hasFree := len(list) > 0`), whose outcome a path learns at the first branch on the variable.
+// Variables assigned constants come first (at most 8 are tracked).
 func (x *FnIndex) flagCells(fn *ssa.Function) []*ssa.Alloc {
 	if fc, ok := x.flagCache[fn]; ok {
 		return fc
@@ -2893,13 +2962,8 @@ func (x *FnIndex) flagCells(fn *ssa.Function) []*ssa.Alloc {
 				continue
 			}
 			for _, st := range x.stores[al] {
+				// (a value that is not a constant makes the flag unknown until a branch on it tells)
 				good := st.Parent() == fn
-				if _, isC := constBool(st.Val); !isC {
-					src := flagLoad(st.Val)
-					if src == nil || !isFlag[src] {
-						good = false
-					}
-				}
 				if !good {
 					isFlag[al] = false
 					changed = true
@@ -2909,9 +2973,19 @@ func (x *FnIndex) flagCells(fn *ssa.Function) []*ssa.Alloc {
 		}
 	}
 	var out []*ssa.Alloc
-	for _, al := range cands {
-		if isFlag[al] && len(out) < 8 {
-			out = append(out, al)
+	onlyConst := func(al *ssa.Alloc) bool {
+		for _, st := range x.stores[al] {
+			if _, isC := constBool(st.Val); !isC && flagLoad(st.Val) == nil {
+				return false
+			}
+		}
+		return true
+	}
+	for pass := 0; pass < 2; pass++ {
+		for _, al := range cands {
+			if isFlag[al] && len(out) < 8 && onlyConst(al) == (pass == 0) {
+				out = append(out, al)
+			}
 		}
 	}
 	if x.flagCache == nil {
@@ -2919,6 +2993,81 @@ func (x *FnIndex) flagCells(fn *ssa.Function) []*ssa.Alloc {
 	}
 	x.flagCache[fn] = out
 	return out
+}
+
+// condValues lists the boolean values of fn that two or more branches test (`hasFree := len(l) > 0;
+// if hasFree {..}; ..; if hasFree || hasMore {..}` after the variable has been read through): what a
+// path learnt about such a value at one branch holds at the next, until the instruction that computes
+// the value is executed again. At most `room` of them, in block order.
+func (x *FnIndex) condValues(fn *ssa.Function, room int) []ssa.Value {
+	if room <= 0 {
+		return nil
+	}
+	if cv, ok := x.condCache[fn]; ok {
+		if len(cv) > room {
+			return cv[:room]
+		}
+		return cv
+	}
+	count := map[ssa.Value]int{}
+	var order []ssa.Value
+	for _, b := range fn.Blocks {
+		if len(b.Instrs) == 0 {
+			continue
+		}
+		iff, ok := b.Instrs[len(b.Instrs)-1].(*ssa.If)
+		if !ok {
+			continue
+		}
+		cond := iff.Cond
+		for {
+			u, isU := cond.(*ssa.UnOp)
+			if !isU || u.Op != token.NOT {
+				break
+			}
+			cond = u.X
+		}
+		if _, isC := cond.(*ssa.Const); isC {
+			continue
+		}
+		if flagLoad(cond) != nil {
+			continue
+		}
+		if _, isInstr := cond.(ssa.Instruction); !isInstr {
+			// a parameter (or captured variable's value): never computed anew
+			if _, isPar := cond.(*ssa.Parameter); !isPar {
+				continue
+			}
+		}
+		if count[cond] == 0 {
+			order = append(order, cond)
+		}
+		count[cond]++
+	}
+	var out []ssa.Value
+	for _, v := range order {
+		if count[v] >= 2 && len(out) < 6 {
+			out = append(out, v)
+		}
+	}
+	if x.condCache == nil {
+		x.condCache = map[*ssa.Function][]ssa.Value{}
+	}
+	x.condCache[fn] = out
+	if len(out) > room {
+		return out[:room]
+	}
+	return out
+}
+
+// holdsAtEnd: the last assignment of the variable in block b stores the value v.
+func holdsAtEnd(b *ssa.BasicBlock, cell *ssa.Alloc, v ssa.Value) bool {
+	for i := len(b.Instrs) - 1; i >= 0; i-- {
+		if st, ok := b.Instrs[i].(*ssa.Store); ok && st.Addr == ssa.Value(cell) {
+			return st.Val == v
+		}
+	}
+	return false
 }
 
 // flagLoad: v is a plain read of a local variable; that variable.
@@ -2950,6 +3099,10 @@ func (x *FnIndex) pathExistsFlagsAt(fn *ssa.Function, b0 *ssa.BasicBlock, i0 int
 	for i, f := range flags {
 		idx[f] = i
 	}
+	vidx := map[ssa.Value]int{}
+	for i, v := range x.condValues(fn, 8-len(flags)) {
+		vidx[v] = len(flags) + i
+	}
 	pow := func(i int) int {
 		p := 1
 		for ; i > 0; i-- {
@@ -2978,6 +3131,7 @@ func (x *FnIndex) pathExistsFlagsAt(fn *ssa.Function, b0 *ssa.BasicBlock, i0 int
 		work = work[:len(work)-1]
 		st := n.st
 		loaded := map[ssa.Value]int{}
+		loadedOf := map[ssa.Value]int{}
 		stop := false
 		for i := n.i; i < len(n.b.Instrs); i++ {
 			in := n.b.Instrs[i]
@@ -2987,6 +3141,11 @@ func (x *FnIndex) pathExistsFlagsAt(fn *ssa.Function, b0 *ssa.BasicBlock, i0 int
 			if blocked != nil && blocked(in) {
 				stop = true
 				break
+			}
+			if vv, isV := in.(ssa.Value); isV {
+				if vi, tracked := vidx[vv]; tracked {
+					st = set(st, vi, 0) // computed anew
+				}
 			}
 			switch t := in.(type) {
 			case *ssa.Store:
@@ -3010,6 +3169,7 @@ func (x *FnIndex) pathExistsFlagsAt(fn *ssa.Function, b0 *ssa.BasicBlock, i0 int
 					if al, ok := t.X.(*ssa.Alloc); ok {
 						if fi, isF := idx[al]; isF {
 							loaded[t] = get(st, fi)
+							loadedOf[t] = fi
 						}
 					}
 				}
@@ -3019,6 +3179,7 @@ func (x *FnIndex) pathExistsFlagsAt(fn *ssa.Function, b0 *ssa.BasicBlock, i0 int
 			continue
 		}
 		only := -1
+		learn, learnNeg := -1, false
 		if len(n.b.Instrs) > 0 {
 			if iff, ok := n.b.Instrs[len(n.b.Instrs)-1].(*ssa.If); ok && len(n.b.Succs) == 2 {
 				cond, neg := iff.Cond, false
@@ -3028,6 +3189,18 @@ func (x *FnIndex) pathExistsFlagsAt(fn *ssa.Function, b0 *ssa.BasicBlock, i0 int
 						break
 					}
 					cond, neg = u.X, !neg
+				}
+				if v, ok := loaded[cond]; ok && v == 0 {
+					fi := loadedOf[cond]
+					clean := cond.(ssa.Instruction).Block() == n.b
+					for j := instrIdx(cond.(ssa.Instruction)) + 1; clean && j < len(n.b.Instrs); j++ {
+						if stj, isSt := n.b.Instrs[j].(*ssa.Store); isSt && stj.Addr == ssa.Value(flags[fi]) {
+							clean = false
+						}
+					}
+					if clean {
+						learn, learnNeg = fi, neg
+					}
 				}
 				if v, ok := loaded[cond]; ok && v != 0 {
 					tv := v == 1
@@ -3040,15 +3213,55 @@ func (x *FnIndex) pathExistsFlagsAt(fn *ssa.Function, b0 *ssa.BasicBlock, i0 int
 						only = 1
 					}
 				}
+				if vi, tracked := vidx[cond]; tracked {
+					if v := get(st, vi); v != 0 {
+						tv := (v == 1) != neg
+						if tv {
+							only = 0
+						} else {
+							only = 1
+						}
+					} else {
+						learn, learnNeg = vi, neg
+					}
+				}
 			}
 		}
 		for k, s := range n.b.Succs {
 			if forbidden[edgeKey{n.b, k}] || (only >= 0 && k != only) {
 				continue
 			}
-			if !seen[key{s, st}] {
-				seen[key{s, st}] = true
-				work = append(work, node{s, 0, st})
+			stk := st
+			if learn >= 0 {
+				isTrue := (k == 0) != learnNeg
+				if isTrue {
+					stk = set(st, learn, 1)
+				} else {
+					stk = set(st, learn, 2)
+				}
+			}
+			if iff, isIf := n.b.Instrs[len(n.b.Instrs)-1].(*ssa.If); isIf {
+				cond, neg := iff.Cond, false
+				for {
+					u, isU := cond.(*ssa.UnOp)
+					if !isU || u.Op != token.NOT {
+						break
+					}
+					cond, neg = u.X, !neg
+				}
+				for fi, fc := range flags {
+					if holdsAtEnd(n.b, fc, cond) {
+						if (k == 0) != neg {
+							stk = set(stk, fi, 1)
+						} else {
+							stk = set(stk, fi, 2)
+						}
+					}
+				}
+			}
+			if !seen[key{s, stk}] {
+				seen[key{s, stk}] = true
+				work = append(work, node{s, 0, stk})
 			}
 		}
 	}
@@ -3366,4 +3579,15 @@ func (x *FnIndex) reachUnderSentinel(fn *ssa.Function, from ssa.Instruction, isE
 		}
 	}
 	return reached
+}
+
+// isFieldLoadAny: v is a read of some field of a struct of the named type; the struct value.
+func (x *FnIndex) isFieldLoadAny(v ssa.Value, typ string) (ssa.Value, bool) {
+	v = x.Origin(v)
+	if t, ok := v.(*ssa.UnOp); ok && t.Op == token.MUL {
+		if fa, ok := t.X.(*ssa.FieldAddr); ok && structName(fa.X.Type()) == typ {
+			return fa.X, true
+		}
+	}
+	return nil, false
 }
